@@ -21,16 +21,22 @@ def c07(out, tier):
           "every well-formed UTF-8 text of <= 4 bytes"),
         H("c07a_attr_escape_4", 600, "start_elem attribute value == WHATWG 'escaping a string' (attribute mode)",
           "every well-formed UTF-8 value of <= 4 bytes"),
-        H("c07c_inner_outer_2", 900,
-          "outer serialisation == '<name>' + ChildrenOnly(Some(name)) serialisation + '</name>'; text raw iff HTML raw-text parent",
-          "name in 4 namespaces x 12 local names (all raw-text names, noscript, void, ordinary), scripting flag, text <= 2 bytes, one child element"),
     ]
+    names = ["style", "script", "xmp", "iframe", "noembed", "noframes", "plaintext", "noscript", "br", "div", "title", "p"]
+    quick_names = ["script", "noscript", "style", "plaintext", "br", "div"]
+    IO = ("outer serialisation == '<name>' + ChildrenOnly(Some(name)) serialisation + '</name>' == reference; "
+          "text raw iff the parent is an HTML raw-text element")
+    for n in names:
+        if tier == "thorough" or n in quick_names:
+            hs.append(H("c07c_io2_" + n, 1200, IO,
+                        "parent local name '%s' x namespace in {html,svg,mathml,xml} x scripting flag x text <= 2 bytes, children = text + <b>text</b>" % n))
     if tier == "thorough":
         hs += [
             H("c07a_text_escape_6", 3000, "as c07a_text_escape_4", "every well-formed UTF-8 text of <= 6 bytes"),
             H("c07a_attr_escape_6", 3000, "as c07a_attr_escape_4", "every well-formed UTF-8 value of <= 6 bytes"),
-            H("c07c_inner_outer_3", 3000, "as c07c_inner_outer_2", "as c07c_inner_outer_2 with text <= 3 bytes"),
         ]
+        for n in names:
+            hs.append(H("c07c_io3_" + n, 3600, IO, "as c07c_io2_%s with text <= 3 bytes" % n))
     K.run_all(out, "ser", hs, SER_SRC)
     out.assumptions += [
         "instantiation HtmlSerializer<ArrW>: ArrW is an infallible io::Write keeping the output as a 512-bit shift register",
@@ -48,7 +54,41 @@ def c07(out, tier):
     })
 
 
-PROPS = {"C07": c07}
+BQ_SRC = ["markup5ever/util/buffer_queue.rs", "markup5ever/util/smallcharset.rs", "tendril/src/tendril.rs"]
+
+
+def c13(out, tier):
+    D = {
+        "next_peek": ("peek/next return the first character of the concatenation; next consumes exactly it", "next, peek, push_back, pop_front"),
+        "pop_except": ("pop_except_from returns one set member or the maximal non-empty non-member run of the first buffer", "pop_except_from, SmallCharSet::nonmember_prefix_len"),
+        "eat_eq": ("eat(pat, ==) answers true/false/None exactly as a prefix comparison of the concatenation; consumes only on a match", "eat"),
+        "eat_ci": ("eat(pat, eq_ignore_ascii_case) likewise", "eat"),
+        "push_front": ("push_front after 0..2 consumed characters re-inserts text ahead of everything unread", "push_front, next, peek"),
+        "pop_then_eat": ("pop_except_from followed by eat (front buffer partially consumed) still behaves as on the flat string", "pop_except_from, eat"),
+    }
+    hs = []
+    for k, (d, fns) in D.items():
+        hs.append(H("c13_%s_q" % k, 900, d, "3 pushed buffers, 3-4 concrete length shapes of <= 3 bytes each (empty buffers included), all well-formed UTF-8 contents, all 2^64 character sets, all ASCII patterns of 2-3 bytes"))
+        if tier == "thorough":
+            hs.append(H("c13_%s_t" % k, 3600, d, "3 pushed buffers, 4-6 concrete length shapes of <= 4 bytes each, all contents / sets / patterns of 4 bytes"))
+    K.run_all(out, "bq", hs, BQ_SRC)
+    out.assumptions += [
+        "buffer lengths are walked concretely (shape lists in kani/bq/src/proofs.rs); contents, sets, patterns, consumed prefix are symbolic",
+        "buffers are inline tendrils (<= 8 bytes); heap/shared tendril representations are C11's subject",
+        "after each operation the queue is drained with pop_front and compared with the flat model (no byte lost, duplicated, reordered; no empty buffer stored)",
+        "alloc::fmt::format stubbed", "the queue is mem::forget-ed at the end (drop glue of VecDeque<Tendril> is C12's subject)",
+        "outside the bound: more than 3 buffers, buffers longer than 4 bytes, patterns that are not ASCII, sequences of more than 2 operations",
+    ]
+    return out.finish("model_checking", {
+        "evaluations": out.queries,
+        "distinct_nontrivial": len([u for u in out.units if u["verdict"] == "SUCCESSFUL"]),
+        "rule": "one evaluation = one SAT query discharged by CBMC; distinct_nontrivial = harnesses with verdict SUCCESSFUL and all reachability witnesses satisfied",
+        "functions_encoded": ["BufferQueue::{default,push_back,push_front,pop_front,peek,next,pop_except_from,eat,is_empty}",
+                              "SmallCharSet::{contains,nonmember_prefix_len}", "Tendril::{from_slice,pop_front_char,unsafe_subtendril,unsafe_pop_front,pop_front,len32,as_bytes}"],
+    })
+
+
+PROPS = {"C07": c07, "C13": c13}
 
 
 def replay(path):
